@@ -3,11 +3,14 @@ from .. import app, docprops, drive, engine, fixlib
 from ..oracles import cmark, fingerprint, htmlnorm
 from ..runner import Run
 
-PLAN = {"B2/53": 800, "B3/89": 400, "B4/83": 200, "N1/11": 1000, "W1/2": 800, "S2": 600, "S3": 120, "I4/97": 400, "I6": 200, "H4/3": 200, "P2": 500, "R2/3": 400, "R3": 500, "K7": 600, "T4/5": 200, "Z1": 800}
+PLAN = {"B2/53": 560, "B3/89": 280, "B4/83": 140, "N1/11": 700, "W1/2": 560, "S2": 420, "S3": 84, "I4/97": 280, "I6": 140, "H4/3": 140, "P2": 350, "R2/3": 280, "R3": 350, "K7": 420, "T4/5": 140, "Z1": 560, "Q2": 420, "P3": 420, "E1/211": 280, "M3/3": 350, "L6": 350, "G2": 280, "H6": 210, "L7": 420}
 EVALUATOR = "vp.props.c08:ev"
+# second pass: documented configuration values of the fix-capable rules (rule alone), keyed `<universe>#cfg`
+PLAN_CFG = {"Z1#cfg": 350, "Q2#cfg": 210, "T4/5#cfg": 105, "L6#cfg": 210, "M3/3#cfg": 140, "N1/11#cfg": 280, "W1/2#cfg": 210, "B3/89#cfg": 140, "R3#cfg": 105, "H4/3#cfg": 70, "P3#cfg": 140, "G2#cfg": 210}
+EVALUATORS = {"#cfg": "vp.props.c08:ev_cfg"}
 RULE = (
     "documents = sub-lattices of the bounded universes on which C03's oracle holds (PyMarkdown's and the independent parser's HTML agree) and that scan cleanly; configurations: default rule set, "
-    "up to 2 single fix-capable rules and 1 pair chosen among rules reporting on the document; oracle: fingerprint(markdown-it render of d) == fingerprint(render of fix(d)) where the fingerprint "
+    "up to 2 single fix-capable rules and 1 pair chosen among rules reporting on the document; second pass (`#cfg`): up to 3 documented non-default configuration values of one fix-capable rule, rule alone (md004 styles, md007 indent / start_indented, md009 br_spaces / strict, md010 code_blocks, md012 maximum, md029 styles, md030 spacings, md031 list_items, md035 styles, md044 names, md046 / md048 styles), on documents containing the construct; oracle: fingerprint(markdown-it render of d) == fingerprint(render of fix(d)) where the fingerprint "
     "drops only the freedoms documented for the rules that reported (oracles/fingerprint.py); non-trivial = fix changed the file; distinct by (source hash, configuration)"
 )
 
@@ -31,11 +34,33 @@ def ev(src, opts, rank):
     base = fixlib.scan_ok(src, [])
     if base is None:
         return "skip", "scan-error (C07's)", False, ()
+    return _judge(src, base, fixlib.configs_for(src, base))
+
+
+def ev_cfg(src, opts, rank):
+    """the same oracle under documented non-default configuration values of one fix-capable rule (rule alone)"""
+    toks, psig, _ = docprops.guarded_parse(src)
+    if toks is None:
+        return "skip", "no-parse", False, ()
+    cfgs = fixlib.cfg_configs_for(src)
+    if not cfgs:
+        return "skip", "no configurable construct in the document", False, ()
+    if not c03_holds(src, toks):
+        return "skip", "C03 precondition (independent parser disagrees on the original)", False, ()
+    return _judge(src, None, cfgs)
+
+
+def _judge(src, base, configs):
     problems = set()
     nt = False
     labels = []
-    for name, args, rules in fixlib.configs_for(src, base):
+    for name, args, rules in configs:
         kind = name.split(":")[0]
+        if kind == "cfg":
+            base = fixlib.scan_ok(src, args)
+            if base is None:
+                labels.append("scan-error-skipped")
+                continue
         f1 = fixlib.fix_once(src, args)
         if f1["error"]:
             labels.append("fix-error-skipped")
@@ -60,8 +85,9 @@ def main(tier, seed):
     run = Run("C08", tier, seed)
     run.regressions(replay)
     engine.run_universes(run, EVALUATOR, PLAN, tier, seed, chunk=40)
+    engine.run_universes(run, EVALUATORS["#cfg"], PLAN_CFG, tier, seed, chunk=40)
     return run.finish(RULE, assumptions=["trusted base: vendored markdown-it-py as renderer of both versions", "freedoms are granted per rule that reported on the original (fingerprint.py docstring)", "fix runs that end in an error are C15's"])
 
 
 def replay(case):
-    return engine.replay_doc(EVALUATOR, case)
+    return engine.replay_doc(EVALUATORS["#cfg"] if "#cfg" in str(case.get("universe", "")) else EVALUATOR, case)
